@@ -55,6 +55,14 @@ OptU = opt_sort(U)
 digest = z3.Function('py_digest', z3.StringSort(), z3.StringSort(), z3.StringSort())
 
 
+def whole_content_entry(requested, name, data):
+    """what hash_file reports under `name` for a file with content `data`: nothing if the name was not requested, the byte
+    count for the pseudo-hash __size__, else the digest under the algorithm the name denotes.  One text, used by the
+    postcondition proved on the body and by the view callers get."""
+    return z3.If(requested, z3.If(name == z3.StringVal('__size__'), OptU.some(U.vint(z3.Length(data))),
+                                  OptU.some(U.vstr(digest(name, data)))), OptU.none)
+
+
 def hash_file_model(it, bound, node):
     ctx = it.ctx
     f = ctx.force(bound['f'])
@@ -77,8 +85,7 @@ def hash_file_model(it, bound, node):
         FS.raise_oserror(it, 'read', e, p, node)
     data = FS.fs_data(p)
     k = z3.Const('k', z3.StringSort())
-    d = z3.Lambda([k], z3.If(mem(k), z3.If(k == z3.StringVal('__size__'), OptU.some(U.vint(z3.Length(data))),
-                                           OptU.some(U.vstr(digest(k, data)))), OptU.none))
+    d = z3.Lambda([k], whole_content_entry(mem(k), k, data))
     return VCell(VMap(d, Str, Any), 'dict')
 
 
@@ -317,10 +324,7 @@ def _hash_file_contract():
 
     def result_is_whole_content(s):
         d = data(s)
-        want = z3.If(z3.Select(all_names(s), k),
-                     z3.If(k == z3.StringVal('__size__'), OptU.some(U.vint(z3.Length(d))), OptU.some(U.vstr(digest(k, d)))),
-                     OptU.none)
-        return z3.ForAll([k], z3.Select(s.result, k) == want)
+        return z3.ForAll([k], z3.Select(s.result, k) == whole_content_entry(z3.Select(all_names(s), k), k, d))
     c.ensures('digests-and-size-of-the-whole-content-for-exactly-the-requested-names', result_is_whole_content, internal=True)
 
 
